@@ -87,7 +87,7 @@ def _layer(r) -> dict:
 
 @st.composite
 def cases(draw):
-    r = draw(st.randoms(use_true_random=False))
+    r = core.rng(draw)
     partials = {n: _block(r, 1, False) for n in ("p1", "p2", "c")}
     prog = _block(r, 3, True)
     layers = {"args": _layer(r), "matter": _layer(r), "tglobals": _layer(r), "eglobals": _layer(r)}
